@@ -205,6 +205,15 @@ func (c *Ctx) Distinct(key string) {
 	c.mu.Unlock()
 }
 
+// ResetDistinct forgets the distinct cases recorded so far (used when a
+// workload of another property is reused and counts by its own rule).
+func (c *Ctx) ResetDistinct() {
+	c.mu.Lock()
+	c.distinct = map[uint64]struct{}{}
+	c.distinctN = 0
+	c.mu.Unlock()
+}
+
 // DistinctN adds n cases that are distinct by construction (disjoint across
 // batches and within the batch), for enumerations too large to hash.
 func (c *Ctx) DistinctN(n int64) {
